@@ -8,6 +8,8 @@
    (slice stitch (L ts*) <N|(L T:..)> <N|(L T:..)> <oc> I:n)   df_slice(list, lb, ub, oc, n) -> N | frame
    (slice unslice <frame> (L T:..))                      df_unslice(frame, ub)               -> (L (T T:u ts)*)
    (slice roundtrip (L ts*) (L T:..) I:n)                stitch, unslice, stitch again       -> N | (T frame (L (T T:u ts)*) frame)
+   in the bound lists of stitch / unslice / roundtrip a member may be N (an unbounded end): lists of dates only are answered by
+   `stitch` / `unslice`, lists holding N by `stitchO` / `unsliceO` (keys of the reply then T:u | N)
    member ::= ts | frame | I:<v> | F:nan | N             a Series, a DataFrame, a scalar
    blist  ::= N | (L T:<t>*) (dates) | (T I:<us>*) (times of day)
    (slice stitchm (L member*) <blist> <blist> <oc> I:n)  df_slice(list, lb, ub, oc, n)       -> N | frame
@@ -52,6 +54,20 @@ def datesOf : Val → Option (Option (List Int))
       | _ => Option.none).map some
   | _ => Option.none
 
+/-- a bound list whose members may be `None` -/
+def odatesOf : Val → Option (Option (List (Option Int)))
+  | .cell .none => some Option.none
+  | .list xs => (xs.mapM fun (x : Val) => match x with
+      | Val.cell (Cell.dt t) => some (some t)
+      | Val.cell Cell.none => some Option.none
+      | _ => Option.none).map some
+  | _ => Option.none
+
+/-- the list when it holds dates only -/
+def closedDates : Option (List (Option Int)) → Option (Option (List Int))
+  | Option.none => some Option.none
+  | some xs => (xs.mapM id).map some
+
 def frameVal (f : Frame) : Val :=
   .tuple [.cell (.int f.width), .list (f.rows.map fun r => .tuple (.cell (.dt r.1) :: r.2.map valCell))]
 
@@ -69,6 +85,9 @@ def tsList : Val → Option (List TS)
 
 def unslicedVal (u : List (Int × TS)) : Val := .list (u.map fun p => .tuple [.cell (.dt p.1), TS.toVal p.2])
 
+def unslicedValO (u : List (Option Int × TS)) : Val :=
+  .list (u.map fun p => .tuple [(match p.1 with | some t => .cell (.dt t) | Option.none => .cell .none), TS.toVal p.2])
+
 def reply {α} (r : Res α) (f : α → Val) : String :=
   match r with
   | .ok x => "ok " ++ (f x).render
@@ -85,6 +104,14 @@ def roundtrip (dfs : List TS) (ub : List Int) (n : Nat) : Res Val := do
     let u ← unslice f ub
     let g ← stitch (u.map (·.2)) Option.none (some ub) (some ['(', ']']) n
     pure (.tuple [frameVal f, unslicedVal u, optFrameVal g])
+
+def roundtripO (dfs : List TS) (ub : List (Option Int)) (n : Nat) : Res Val := do
+  match ← stitchO dfs Option.none (some ub) (some ['(', ']']) n with
+  | Option.none => pure (.cell .none)
+  | some f =>
+    let u ← unsliceO f ub
+    let g ← stitchO (u.map (·.2)) Option.none (some ub) (some ['(', ']']) n
+    pure (.tuple [frameVal f, unslicedValO u, optFrameVal g])
 
 def memberOf (v : Val) : Option Member :=
   match v with
@@ -127,9 +154,11 @@ def handle1 (op : String) (args : List Sexp) : Option String := do
       pure (reply (sliceWrap f.rows lb ub oc) fun rows => frameVal ⟨f.width, rows⟩)
   | "stitch", [dfs, lb, ub, oc, n] =>
       let dfs ← tsList (← Val.ofSexp dfs)
-      let lb ← datesOf (← Val.ofSexp lb); let ub ← datesOf (← Val.ofSexp ub); let oc ← ocOf (← Val.ofSexp oc)
+      let lb ← odatesOf (← Val.ofSexp lb); let ub ← odatesOf (← Val.ofSexp ub); let oc ← ocOf (← Val.ofSexp oc)
       let n ← match ← Val.ofSexp n with | .cell (.int n) => some n.toNat | _ => Option.none
-      pure (reply (stitch dfs lb ub oc n) optFrameVal)
+      match closedDates lb, closedDates ub with
+      | some lb', some ub' => pure (reply (stitch dfs lb' ub' oc n) optFrameVal)
+      | _, _ => pure (reply (stitchO dfs lb ub oc n) optFrameVal)
   | "stitchm", [ms, lb, ub, oc, n] =>
       let ms ← match ← Val.ofSexp ms with | .list xs => xs.mapM memberOf | _ => Option.none
       let lb ← blistOf (← Val.ofSexp lb); let ub ← blistOf (← Val.ofSexp ub); let oc ← ocOf (← Val.ofSexp oc)
@@ -141,13 +170,17 @@ def handle1 (op : String) (args : List Sexp) : Option String := do
       pure (reply (slicesOfSeries ts lb ub oc) slicedVal)
   | "unslice", [f, ub] =>
       let f ← frameOf (← Val.ofSexp f)
-      let ub ← (← datesOf (← Val.ofSexp ub))
-      pure (reply (unslice f ub) unslicedVal)
+      let ub ← (← odatesOf (← Val.ofSexp ub))
+      match ub.mapM id with
+      | some ub' => pure (reply (unslice f ub') unslicedVal)
+      | Option.none => pure (reply (unsliceO f ub) unslicedValO)
   | "roundtrip", [dfs, ub, n] =>
       let dfs ← tsList (← Val.ofSexp dfs)
-      let ub ← (← datesOf (← Val.ofSexp ub))
+      let ub ← (← odatesOf (← Val.ofSexp ub))
       let n ← match ← Val.ofSexp n with | .cell (.int n) => some n.toNat | _ => Option.none
-      pure (reply (roundtrip dfs ub n) id)
+      match ub.mapM id with
+      | some ub' => pure (reply (roundtrip dfs ub' n) id)
+      | Option.none => pure (reply (roundtripO dfs ub n) id)
   | _, _ => Option.none
 
 def handle (s : St) (op : String) (args : List Sexp) : Option (St × String) :=
